@@ -22,6 +22,10 @@ package main
 //                            RequestClientCert becomes RequireAndVerifyClientCert
 //   negCertReqFromRequest    CertificateRequest is sent iff authPolice >= RequestClientCert
 //   negVerifyFromIfGiven     processCertsFromClient verifies iff ClientAuth >= VerifyClientCertIfGiven && len(certs) > 0
+//   negResumePolicyGuards    checkForResumption refuses to resume when the policy requires a client
+//                            certificate and the session records none, or the session records some
+//                            and the policy is NoClientCert (F6)
+//   negResumeReprocessesCerts doResumeHandshake re-runs processCertsFromClient on the recorded certificates
 //   negEncCertNeedsSigCert   the client appends its encryption certificate only when the
 //                            certificate list already holds the signing certificate (F36)
 
@@ -40,7 +44,8 @@ func init() {
 			"serverHandshakeState.processClientHello", "Conn.readClientHello", "Conn.processCertsFromClient",
 			"Conn.getClientCertificate", "Conn.getClientKECertificate", "Config.getCertificate", "Config.getEKCertificate",
 			"Config.supportedVersions", "Config.mutualVersion", "supportedVersionsFromMax", "Config.cipherSuites",
-			"requiresClientCert", "Config.Clone", "CertificateRequestInfo.SupportsCertificate")
+			"requiresClientCert", "Config.Clone", "CertificateRequestInfo.SupportsCertificate",
+			"serverHandshakeState.checkForResumption", "serverHandshakeState.doResumeHandshake")
 	}
 }
 
@@ -309,6 +314,30 @@ func emitNegotiate(e *emitter, p *pkg) {
 		}
 	}
 	e.boolean("negVerifyFromIfGiven", verifyFrom && reqCheck && ecdheTwo)
+
+	// resumption: the policy guards of checkForResumption (F6) and the re-check of the recorded certificates
+	cfr := p.funcs["serverHandshakeState.checkForResumption"]
+	g1, g2 := false, false
+	for _, st := range allStmts(cfr) {
+		if is, ok := st.(*ast.IfStmt); ok && p.src(is.Body) == "{ return false }" {
+			switch p.src(is.Cond) {
+			case "needClientCerts && !sessionHasClientCerts":
+				g1 = true
+			case "sessionHasClientCerts && c.config.ClientAuth == NoClientCert":
+				g2 = true
+			}
+		}
+	}
+	g1 = g1 && srcHas(cfr, "needClientCerts := requiresClientCert(c.config.ClientAuth)") &&
+		srcHas(cfr, "sessionHasClientCerts := len(hs.sessionState.peerCertificates) != 0")
+	e.boolean("negResumePolicyGuards", g1 && g2)
+	reproc := false
+	for _, st := range allStmts(p.funcs["serverHandshakeState.doResumeHandshake"]) {
+		if is, ok := st.(*ast.IfStmt); ok && is.Init != nil && strings.HasPrefix(p.src(is.Init), "err := c.processCertsFromClient(") {
+			reproc = true
+		}
+	}
+	e.boolean("negResumeReprocessesCerts", reproc)
 
 	// client doFullHandshake: the certificate list
 	cfh := p.funcs["clientHandshakeState.doFullHandshake"]
